@@ -183,6 +183,44 @@ fn integer_literal(src: &mut Src, magnitude: u128, radix_choice: usize, negative
     Literal { text: format!("{}{prefix}{body}", if negative { "-" } else { "" }), negative, magnitude: Some(magnitude), plain, features }
 }
 
+/// The 54 fraction digits of an odd multiple of 2^-54 in [0.5, 1) — exactly half-way between two
+/// neighbouring doubles — nudged up (one more digit), down (…4 99) or left exact.
+fn near_midpoint_fraction(src: &mut Src) -> String {
+    let k = (1u64 << 52) + (((src.word() as u64) << 20) ^ src.word() as u64) % (1u64 << 52);
+    let n = 2 * k + 1;
+    // n * 5^54 in base 10^9, little endian
+    let mut limbs: Vec<u64> = vec![n % 1_000_000_000, n / 1_000_000_000 % 1_000_000_000, n / 1_000_000_000_000_000_000];
+    for _ in 0..54 {
+        let mut carry = 0u64;
+        for l in limbs.iter_mut() {
+            let v = *l * 5 + carry;
+            *l = v % 1_000_000_000;
+            carry = v / 1_000_000_000;
+        }
+        if carry > 0 {
+            limbs.push(carry);
+        }
+    }
+    while limbs.len() > 1 && *limbs.last().unwrap() == 0 {
+        limbs.pop();
+    }
+    let mut digits = format!("{}", limbs.last().unwrap());
+    for l in limbs.iter().rev().skip(1) {
+        digits.push_str(&format!("{l:09}"));
+    }
+    let mut digits = format!("{digits:0>54}");
+    match src.below(3) {
+        0 => digits.push('1'),
+        1 => {
+            // the last digit of an odd number times a power of five is 5
+            digits.pop();
+            digits.push_str("499");
+        }
+        _ => {}
+    }
+    digits
+}
+
 fn real_literal(src: &mut Src, negative: bool) -> Literal {
     let int_part = match src.below(5) {
         0 => String::new(),
@@ -191,12 +229,19 @@ fn real_literal(src: &mut Src, negative: bool) -> Literal {
         3 => "179769313486231570000".to_string(),
         _ => format!("{}", src.word()),
     };
-    let frac_part = match src.below(4) {
+    let frac_choice = src.below(6);
+    let frac_part = match frac_choice {
         0 => String::new(),
         1 => "5".to_string(),
         2 => format!("{:03}", src.below(1000)),
-        _ => "0000000000000000000000001".to_string(),
+        3 => "0000000000000000000000001".to_string(),
+        // more significant digits than any shortcut of a float parser keeps (19 fit in a u64)
+        4 => format!("{:010}{:010}{:010}", src.word(), src.word(), src.word()),
+        // a hair above / below / exactly on the midpoint of two neighbouring doubles: the case in
+        // which the digits beyond the 19th decide the rounding
+        _ => near_midpoint_fraction(src),
     };
+    let int_part = if frac_choice == 5 { "0".to_string() } else { int_part };
     // at least one digit somewhere
     let (int_part, frac_part) = if int_part.is_empty() && frac_part.is_empty() { ("1".to_string(), String::new()) } else { (int_part, frac_part) };
     let exponent = match src.below(8) {
@@ -438,7 +483,7 @@ impl Property for C05Prop {
         "C05"
     }
     fn rule(&self) -> &'static str {
-        "exhaustive boundary table: magnitudes {0, 1, 255, 2^31-1, 2^31, 2^53-1, 2^53+1, 2^63-1, 2^63, 2^63+1, 2^64-1, 2^64, 2^64+1, 2^70} x 7 radix spellings (decimal, 0b/0B, 0o/0O, 0x lower / 0X upper) x sign x 33 positions (MOVE/ADD/SUB/MUL/DIV/STORE sources, EQ/GT/GE/LT/LE right-hand sides, AND/IOR/XOR/SHL sources, qubit, memory index, DECLARE length, OFFSET, PRAGMA integer, permutation entry, gate / DEFCAL parameter, frame attribute, DELAY, SET-FREQUENCY, SHIFT-PHASE, RAW-CAPTURE duration, waveform parameter, DEFGATE matrix cell, DEFWAVEFORM entry, CALL immediate); random: integer spellings of random magnitudes up to 80 bits with leading zeros and '_' / '__' separators between digits, and decimal real spellings (empty / short / 21-digit integer parts, fractions, exponents e/E with +/- up to 319, separators) in the same positions. Non-trivial = the spelling uses >= 2 of {radix prefix, separator, exponent, sign, magnitude > 2^53}; distinct by (position, spelling)."
+        "exhaustive boundary table: magnitudes {0, 1, 255, 2^31-1, 2^31, 2^53-1, 2^53+1, 2^63-1, 2^63, 2^63+1, 2^64-1, 2^64, 2^64+1, 2^70} x 7 radix spellings (decimal, 0b/0B, 0o/0O, 0x lower / 0X upper) x sign x 33 positions (MOVE/ADD/SUB/MUL/DIV/STORE sources, EQ/GT/GE/LT/LE right-hand sides, AND/IOR/XOR/SHL sources, qubit, memory index, DECLARE length, OFFSET, PRAGMA integer, permutation entry, gate / DEFCAL parameter, frame attribute, DELAY, SET-FREQUENCY, SHIFT-PHASE, RAW-CAPTURE duration, waveform parameter, DEFGATE matrix cell, DEFWAVEFORM entry, CALL immediate); random: integer spellings of random magnitudes up to 80 bits with leading zeros and '_' / '__' separators between digits, and decimal real spellings (empty / short / 21-digit integer parts; fractions: empty, short, 25 digits, 30 random digits, or the 54 digits of an odd multiple of 2^-54 in [0.5, 1) — the midpoint of two neighbouring doubles — exact, nudged up or nudged down; exponents e/E with +/- up to 319; separators) in the same positions. Non-trivial = the spelling uses >= 2 of {radix prefix, separator, exponent, sign, magnitude > 2^53}; distinct by (position, spelling)."
     }
     fn max_words(&self) -> usize {
         120
